@@ -1,7 +1,7 @@
 SPECIFICATION Spec
 CONSTANTS
-  KF_IntermediateAKCounts = TRUE
-  KF_UnconfirmedAccountOpen = TRUE
+  KF_IntermediateAKCounts = FALSE
+  KF_UnconfirmedAccountOpen = FALSE
   MaxOps = 12
 CONSTRAINT Dump
 CHECK_DEADLOCK FALSE
